@@ -15,10 +15,17 @@
 (*                commitMark.Begin, append to committedTxns      (hook cm.decided)   *)
 (*   Apply        db.rawset of the whole batch                   (hook cm.applied)   *)
 (*   CommitDone   oracle.doneCommit, unlock                      (hook cm.done)      *)
+(*   AbortDiscard the deferred Discard of a refused Commit (after the unlock)        *)
 (*   WmStep       one mark consumed by a watermark's process loop (hook wm.process)  *)
+(*   WmPublish    the loop stores the new DoneUntil and wakes the waiters            *)
 (*                                                                         *)
-(* The watermarks follow the sequential mark rule of pkg/watermark; their  *)
-(* asynchronous consumer (lag) is modelled in Watermark.tla, see "Lag".    *)
+(* The watermarks follow the sequential mark rule of pkg/watermark.  With  *)
+(* Lag = TRUE their consumer is asynchronous as in the code: a mark is     *)
+(* appended to the watermark's channel when it is sent, WmStep consumes    *)
+(* the head, WmPublish makes the new DoneUntil visible to DoneUntil() and  *)
+(* WaitForMark.  With Lag = FALSE a mark is processed and published when   *)
+(* it is sent (larger instances).  Watermark.tla models the consumer alone *)
+(* (heap, waiters, cancellation).                                          *)
 (*                                                                         *)
 (* Ghost variable `hist` is the commit order of the CONTRACT (AbsTxn): the *)
 (* invariants say that this layer refines it.                              *)
@@ -29,6 +36,7 @@
 EXTENDS Integers, Sequences, FiniteSets
 
 CONSTANTS Clients, Keys, MaxTxn, MaxOps,
+          Lag,                 \* TRUE: asynchronous watermark consumers (queues); FALSE: marks processed when sent
           BugConflictGeq,      \* hasConflict skips ct.ts < readTs only... compares with >= instead of >
           BugNoReadTracking,   \* Get does not record the read fingerprint
           BugNoCommitWait,     \* Begin does not wait for commitMark
@@ -39,15 +47,15 @@ CONSTANTS Clients, Keys, MaxTxn, MaxOps,
           BugDoneCommitEarly   \* doneCommit before the writes are applied
 
 VARIABLES nextTs, committed, lastClean,
-          rmPend, rmDone,            \* readMark: pending counts, DoneUntil
-          cmPend, cmDone,            \* commitMark
+          wm,                        \* the two watermarks "r" (readMark) and "c" (commitMark): channel q, pending
+                                     \* counts pend, the loop's doneUntil done, the published DoneUntil vis
           wLock,                     \* holder of oracle.writeLock or 0
           store,                     \* set of versions [k, ts, v]
           tx,                        \* per client
           hist,                      \* ghost: contract commit order, Seq([Keys -> val])
           bad                        \* ghost: a decision disagreed with the contract ("" = none)
 
-vars == <<nextTs, committed, lastClean, rmPend, rmDone, cmPend, cmDone, wLock, store, tx, hist, bad>>
+vars == <<nextTs, committed, lastClean, wm, wLock, store, tx, hist, bad>>
 
 Unw  == -1
 Gone == 0
@@ -56,8 +64,7 @@ Fresh(n) == [st |-> "idle", n |-> n, upd |-> FALSE, rts |-> 0, snap |-> 0, reads
              ops |-> 0, doneRead |-> FALSE]       \* snap is a ghost: Len(hist) when readTs was taken
 
 Init == /\ nextTs = 1 /\ committed = {} /\ lastClean = 0
-        /\ rmPend = <<>> /\ rmDone = 0
-        /\ cmPend = <<>> /\ cmDone = 0
+        /\ wm = [w \in {"r", "c"} |-> [q |-> <<>>, pend |-> <<>>, done |-> 0, vis |-> 0]]
         /\ wLock = 0
         /\ store = {}
         /\ tx = [c \in Clients |-> Fresh(0)]
@@ -89,13 +96,24 @@ Process(m, p, d) ==
         p1   == [j \in (DOMAIN p) \cup {m.ts} |-> IF j = m.ts THEN prev + (IF m.done THEN -1 ELSE 1) ELSE p[j]]
     IN Drain(p1, d)
 
-\* Lag.  The real consumer processes marks asynchronously, in FIFO order (Watermark.tla models
-\* exactly that, with its queue).  In this module a mark is processed when it is sent: DoneUntil
-\* is only ever used in monotone guards (WaitForMark: cmDone >= readTs) and as an upper bound
-\* of what may be forgotten (cleanup, version discard), so a lagging consumer only delays
-\* BeginReady and forgets less - every behaviour with lag is a behaviour of this model with
-\* some steps postponed, and the no-lag value is the worst case for the safety properties.
 Mark(ts, done) == [ts |-> ts, done |-> done]
+
+\* the watermark function f after mark m was sent to watermark w
+Sent(f, w, m) == IF Lag THEN [f EXCEPT ![w].q = Append(@, m)]
+                 ELSE LET r == Process(m, f[w].pend, f[w].done) IN
+                      [f EXCEPT ![w].pend = r[1], ![w].done = r[2], ![w].vis = r[2]]
+
+\* the process loop takes the next mark only after it published the result of the previous one
+WmStep(w) ==
+    /\ Lag /\ wm[w].q # <<>> /\ wm[w].vis = wm[w].done
+    /\ LET r == Process(Head(wm[w].q), wm[w].pend, wm[w].done) IN
+       wm' = [wm EXCEPT ![w].q = Tail(@), ![w].pend = r[1], ![w].done = r[2]]
+    /\ UNCHANGED <<nextTs, committed, lastClean, wLock, store, tx, hist, bad>>
+
+WmPublish(w) ==
+    /\ Lag /\ wm[w].vis < wm[w].done
+    /\ wm' = [wm EXCEPT ![w].vis = wm[w].done]
+    /\ UNCHANGED <<nextTs, committed, lastClean, wLock, store, tx, hist, bad>>
 
 \* ------------------------------------------------------------------ client actions
 BeginTs(c, upd) ==
@@ -103,14 +121,14 @@ BeginTs(c, upd) ==
     /\ LET rts == IF BugReadAtNext THEN nextTs ELSE nextTs - 1 IN
        /\ tx' = [tx EXCEPT ![c] = [Fresh(tx[c].n + 1) EXCEPT !.st = "waitmark", !.upd = upd, !.rts = rts,
                                                           !.snap = Len(hist)]]
-       /\ LET r == Process(Mark(rts, FALSE), rmPend, rmDone) IN rmPend' = r[1] /\ rmDone' = r[2]
-    /\ UNCHANGED <<nextTs, committed, lastClean, cmPend, cmDone, wLock, store, hist, bad>>
+       /\ wm' = Sent(wm, "r", Mark(rts, FALSE))
+    /\ UNCHANGED <<nextTs, committed, lastClean, wLock, store, hist, bad>>
 
 BeginReady(c) ==
     /\ tx[c].st = "waitmark"
-    /\ BugNoCommitWait \/ cmDone >= tx[c].rts
+    /\ BugNoCommitWait \/ wm["c"].vis >= tx[c].rts
     /\ tx' = [tx EXCEPT ![c].st = "active"]
-    /\ UNCHANGED <<nextTs, committed, lastClean, rmPend, rmDone, cmPend, cmDone, wLock, store, hist, bad>>
+    /\ UNCHANGED <<nextTs, committed, lastClean, wm, wLock, store, hist, bad>>
 
 \* the value a Get returns now
 GetNow(c, k) == IF tx[c].upd /\ tx[c].w[k] # Unw THEN tx[c].w[k] ELSE StoreRead(k, tx[c].rts)
@@ -126,28 +144,25 @@ Get(c, k) ==
                                      THEN @ \cup {k} ELSE @,
                         ![c].sreads = IF tx[c].upd /\ ~own THEN @ \cup {k} ELSE @]   \* ghost: the contract's store reads
     /\ bad' = IF bad = "" /\ GetNow(c, k) # GetSpec(c, k) THEN "read" ELSE bad
-    /\ UNCHANGED <<nextTs, committed, lastClean, rmPend, rmDone, cmPend, cmDone, wLock, store, hist>>
+    /\ UNCHANGED <<nextTs, committed, lastClean, wm, wLock, store, hist>>
 
-Put(c, k, del) ==
+\* v = Gone: Delete; any other value: Set
+Put(c, k, v) ==
     /\ tx[c].st = "active" /\ tx[c].upd /\ tx[c].ops < MaxOps
-    /\ tx' = [tx EXCEPT ![c].ops = @ + 1, ![c].w[k] = IF del THEN Gone ELSE Val(c)]
-    /\ UNCHANGED <<nextTs, committed, lastClean, rmPend, rmDone, cmPend, cmDone, wLock, store, hist, bad>>
+    /\ tx' = [tx EXCEPT ![c].ops = @ + 1, ![c].w[k] = v]
+    /\ UNCHANGED <<nextTs, committed, lastClean, wm, wLock, store, hist, bad>>
 
-\* oracle.doneRead: readMark.Done(readTs) unless already sent; result <<pending', doneUntil'>>
-DoneRead(c) == IF tx[c].doneRead THEN <<rmPend, rmDone>> ELSE Process(Mark(tx[c].rts, TRUE), rmPend, rmDone)
+\* oracle.doneRead: readMark.Done(readTs) unless already sent; the watermarks afterwards
+DoneRead(c) == IF tx[c].doneRead THEN wm ELSE Sent(wm, "r", Mark(tx[c].rts, TRUE))
 
+\* Discard, and Commit without writes (which is a Discard returning nil)
 Discard(c) ==
     /\ tx[c].st = "active"
-    /\ rmPend' = DoneRead(c)[1] /\ rmDone' = DoneRead(c)[2]
+    /\ wm' = DoneRead(c)
     /\ tx' = [tx EXCEPT ![c].st = "done", ![c].doneRead = TRUE]
-    /\ UNCHANGED <<nextTs, committed, lastClean, cmPend, cmDone, wLock, store, hist, bad>>
+    /\ UNCHANGED <<nextTs, committed, lastClean, wLock, store, hist, bad>>
 
-\* Commit without writes: Discard, nil
-CommitEmpty(c) ==
-    /\ tx[c].st = "active" /\ WKeys(tx[c].w) = {}
-    /\ rmPend' = DoneRead(c)[1] /\ rmDone' = DoneRead(c)[2]
-    /\ tx' = [tx EXCEPT ![c].st = "done", ![c].doneRead = TRUE]
-    /\ UNCHANGED <<nextTs, committed, lastClean, cmPend, cmDone, wLock, store, hist, bad>>
+CommitEmpty(c) == WKeys(tx[c].w) = {} /\ Discard(c)
 
 CommitLock(c) ==
     /\ tx[c].st = "active" /\ WKeys(tx[c].w) # {}
@@ -156,7 +171,7 @@ CommitLock(c) ==
     /\ tx' = [tx EXCEPT ![c].st = "locked"]
     /\ store' = IF BugApplyBeforeDecide
                 THEN store \cup {[k |-> k, ts |-> nextTs, v |-> tx[c].w[k]] : k \in WKeys(tx[c].w)} ELSE store
-    /\ UNCHANGED <<nextTs, committed, lastClean, rmPend, rmDone, cmPend, cmDone, hist, bad>>
+    /\ UNCHANGED <<nextTs, committed, lastClean, wm, hist, bad>>
 
 ImplConflict(c) == \E ct \in committed :
                       /\ IF BugConflictGeq THEN ct.ts > tx[c].rts + 1 ELSE ct.ts > tx[c].rts
@@ -164,52 +179,59 @@ ImplConflict(c) == \E ct \in committed :
 \* the contract's rule on the ghost history; store-read keys = reads tracked without the switches
 SpecConflict(c) == \E i \in (tx[c].snap + 1)..Len(hist) : \E k \in tx[c].sreads : hist[i][k] # Unw
 
+\* newCommitTs under the oracle mutex.  Refused: the write lock is released on return and the
+\* deferred Discard follows as a step of its own (AbortDiscard).
 CommitDecide(c) ==
     /\ tx[c].st = "locked"
-    /\ LET dr == DoneRead(c) IN
-       IF ImplConflict(c)
-       THEN /\ tx' = [tx EXCEPT ![c].st = "done", ![c].doneRead = TRUE]
-            /\ rmPend' = dr[1] /\ rmDone' = dr[2]           \* the deferred Discard
+    /\ IF ImplConflict(c)
+       THEN /\ tx' = [tx EXCEPT ![c].st = "aborted"]
             /\ wLock' = 0
             /\ bad' = IF bad = "" /\ ~SpecConflict(c) THEN "overabort" ELSE bad
-            /\ UNCHANGED <<nextTs, committed, lastClean, cmPend, cmDone, hist>>
-       ELSE /\ rmPend' = dr[1] /\ rmDone' = dr[2]
-            /\ LET low  == IF BugCleanupEager THEN nextTs - 1 ELSE dr[2]
-                   keep == IF low = lastClean THEN committed ELSE {ct \in committed : ct.ts > low} IN
-               /\ committed' = keep \cup {[ts |-> nextTs, wkeys |-> WKeys(tx[c].w)]}
+            /\ UNCHANGED <<nextTs, committed, lastClean, wm, hist>>
+       ELSE LET dr   == DoneRead(c)
+                low  == IF BugCleanupEager THEN nextTs - 1 ELSE dr["r"].vis     \* readMark.DoneUntil()
+                keep == IF low = lastClean THEN committed ELSE {ct \in committed : ct.ts > low}
+                b    == Sent(dr, "c", Mark(nextTs, FALSE))
+            IN /\ committed' = keep \cup {[ts |-> nextTs, wkeys |-> WKeys(tx[c].w)]}
                /\ lastClean' = low
-            /\ nextTs' = nextTs + 1
-            /\ LET b == Process(Mark(nextTs, FALSE), cmPend, cmDone)
-                   e == IF BugDoneCommitEarly THEN Process(Mark(nextTs, TRUE), b[1], b[2]) ELSE b IN
-               cmPend' = e[1] /\ cmDone' = e[2]
-            /\ tx' = [tx EXCEPT ![c].st = "applying", ![c].cts = nextTs, ![c].doneRead = TRUE]
-            /\ hist' = Append(hist, tx[c].w)
-            /\ bad' = IF bad = "" /\ SpecConflict(c) THEN "underabort" ELSE bad
-            /\ UNCHANGED wLock
+               /\ nextTs' = nextTs + 1
+               /\ wm' = IF BugDoneCommitEarly THEN Sent(b, "c", Mark(nextTs, TRUE)) ELSE b
+               /\ tx' = [tx EXCEPT ![c].st = "applying", ![c].cts = nextTs, ![c].doneRead = TRUE]
+               /\ hist' = Append(hist, tx[c].w)
+               /\ bad' = IF bad = "" /\ SpecConflict(c) THEN "underabort" ELSE bad
+               /\ UNCHANGED wLock
     /\ UNCHANGED store
+
+AbortDiscard(c) ==
+    /\ tx[c].st = "aborted"
+    /\ wm' = DoneRead(c)
+    /\ tx' = [tx EXCEPT ![c].st = "done", ![c].doneRead = TRUE]
+    /\ UNCHANGED <<nextTs, committed, lastClean, wLock, store, hist, bad>>
 
 Apply(c) ==
     /\ tx[c].st = "applying"
     /\ store' = store \cup {[k |-> k, ts |-> tx[c].cts, v |-> tx[c].w[k]] : k \in WKeys(tx[c].w)}
     /\ tx' = [tx EXCEPT ![c].st = "applied"]
-    /\ UNCHANGED <<nextTs, committed, lastClean, rmPend, rmDone, cmPend, cmDone, wLock, hist, bad>>
+    /\ UNCHANGED <<nextTs, committed, lastClean, wm, wLock, hist, bad>>
 
 CommitDone(c) ==
     /\ tx[c].st = "applied"
-    /\ LET e == IF BugDoneCommitEarly THEN <<cmPend, cmDone>> ELSE Process(Mark(tx[c].cts, TRUE), cmPend, cmDone) IN
-       cmPend' = e[1] /\ cmDone' = e[2]
+    /\ wm' = IF BugDoneCommitEarly THEN wm ELSE Sent(wm, "c", Mark(tx[c].cts, TRUE))
     /\ wLock' = 0
     /\ tx' = [tx EXCEPT ![c].st = "done"]
-    /\ UNCHANGED <<nextTs, committed, lastClean, rmPend, rmDone, store, hist, bad>>
+    /\ UNCHANGED <<nextTs, committed, lastClean, store, hist, bad>>
 
-Next == \E c \in Clients :
+Next == \/ \E c \in Clients :
              \/ \E u \in BOOLEAN : BeginTs(c, u)
-             \/ BeginReady(c) \/ Discard(c) \/ CommitEmpty(c) \/ CommitLock(c) \/ CommitDecide(c)
+             \/ BeginReady(c) \/ Discard(c) \/ CommitLock(c) \/ CommitDecide(c) \/ AbortDiscard(c)
              \/ Apply(c) \/ CommitDone(c)
-             \/ \E k \in Keys : Get(c, k) \/ \E d \in BOOLEAN : Put(c, k, d)
+             \/ \E k \in Keys : Get(c, k) \/ \E v \in {Gone, Val(c)} : Put(c, k, v)
+        \/ \E w \in {"r", "c"} : WmStep(w) \/ WmPublish(w)
 
 Spec == Init /\ [][Next]_vars
-FairSpec == Spec /\ \A c \in Clients : WF_vars(BeginReady(c) \/ CommitDecide(c) \/ Apply(c) \/ CommitDone(c))
+FairSpec == /\ Spec
+            /\ \A c \in Clients : WF_vars(BeginReady(c) \/ CommitDecide(c) \/ AbortDiscard(c) \/ Apply(c) \/ CommitDone(c))
+            /\ \A w \in {"r", "c"} : WF_vars(WmStep(w) \/ WmPublish(w))
 
 \* ------------------------------------------------------------------ properties
 \* C05: every read an active transaction could issue now returns what the contract prescribes
@@ -219,11 +241,12 @@ Agrees == bad = ""
 \* C08: every stored version was written by a transaction that committed
 NoTrace == \A v \in store : \E i \in 1..Len(hist) : hist[i][v.k] = v.v /\ i = v.ts
 \* the version-discard watermark never passes an open reader (GC safety, C05/C09)
-GcSafe == \A c \in Clients : tx[c].st \in {"waitmark", "active"} /\ ~tx[c].doneRead => rmDone <= tx[c].rts
+GcSafe == \A c \in Clients : tx[c].st \in {"waitmark", "active", "locked", "aborted"} /\ ~tx[c].doneRead =>
+              wm["r"].done <= tx[c].rts /\ wm["r"].vis <= tx[c].rts
 \* the commit watermark never claims an unapplied commit
-CommitMarkSound == \A c \in Clients : tx[c].st \in {"applying"} => cmDone < tx[c].cts
+CommitMarkSound == \A c \in Clients : tx[c].st \in {"applying"} => wm["c"].done < tx[c].cts
 \* cleanup never forgets a committed transaction an open update transaction could conflict with
-CleanupSafe == \A c \in Clients : tx[c].st \in {"active", "locked"} /\ tx[c].upd =>
+CleanupSafe == \A c \in Clients : tx[c].st \in {"waitmark", "active", "locked"} /\ tx[c].upd =>
                   \A i \in (tx[c].snap + 1)..Len(hist) : \E ct \in committed : ct.ts = i
 \* liveness (C15 for the oracle): a transaction waiting for the commit mark gets it
 BeginReturns == \A c \in Clients : (tx[c].st = "waitmark") ~> (tx[c].st # "waitmark")
